@@ -139,6 +139,21 @@ pub fn pure_rules(seed: u64, n: u64) -> Out {
             },
         }
     }
+    // a list that is present but empty names no server: a configuration error, not the default local server
+    let empties: Vec<(&str, Box<dyn Fn() -> Result<(), ConfigError>>)> = vec![
+        ("cluster urls=[]", Box::new(|| deadpool_redis::cluster::Config { urls: Some(vec![]), connections: None, pool: None, read_from_replicas: false }.builder().map(|_| ()))),
+        ("cluster connections=[]", Box::new(|| deadpool_redis::cluster::Config { urls: None, connections: Some(vec![]), pool: None, read_from_replicas: false }.builder().map(|_| ()))),
+        ("sentinel urls=[]", Box::new(|| deadpool_redis::sentinel::Config { urls: Some(vec![]), connections: None, server_type: Default::default(), master_name: "m".into(), node_connection_info: None, pool: None }.builder().map(|_| ()))),
+        ("sentinel connections=[]", Box::new(|| deadpool_redis::sentinel::Config { urls: None, connections: Some(vec![]), server_type: Default::default(), master_name: "m".into(), node_connection_info: None, pool: None }.builder().map(|_| ()))),
+    ];
+    for (name, f) in empties {
+        o.case(name, true);
+        match catch_unwind(AssertUnwindSafe(|| f())) {
+            Err(p) => o.bad("builder_panicked", format!("builder() panicked: {}", vh_common::panic_message(&*p)), name),
+            Ok(Ok(())) => o.bad("empty_list_accepted", format!("{}: builder() succeeded although no server is named", name), name),
+            Ok(Err(_)) => o.bump("empty_list_refused"),
+        }
+    }
     o
 }
 
